@@ -792,7 +792,9 @@ func (c *c20) judgeFault(endpoint, mode string, k int, fired string, res c06http
 	}
 	body := string(res.body)
 	for _, w := range leakWords {
-		if strings.Contains(body, w) {
+		// only an error report can leak; a 200 body carries random bech32 / hex strings in which
+		// a short word such as "sql" occurs by chance
+		if res.status != 200 && strings.Contains(body, w) {
 			c.r.Violate(fmt.Sprintf("fault:%s:internal-detail-leaked:%s", endpoint, fired), fmt.Sprintf("a %s fault at %s is reported with internal detail: %s", mode, fired, truncStr(body, 300)), c.sig, nil)
 			return
 		}
